@@ -51,7 +51,7 @@ class SchematicDiagramParser:
 
     @property
     def node_label_mapping(self) -> dict[schemdraw.util.Point, str]:
-        node_labels = {self.unique_node_mapping[elm.get_nodes(e)[0]] : e.node_id for e in self.node_elements}
+        node_labels = {self.unique_node_mapping[elm.get_nodes(e)[0]] : e.node_id for e in self.node_elements if e.node_id != ''} # an unnamed junction dot names nothing (two of them would otherwise be read as one node)
         node_index = len(node_labels)+1
         unlabeled_nodes = [p for p in self.unique_nodes if p not in node_labels.keys()]
         for p in unlabeled_nodes:
